@@ -124,6 +124,12 @@ def gen(rnd):
         for g in gt:
             if rnd.random() < 0.6:
                 g["label"] = "false_positive"
+        if rnd.random() < 0.5:
+            # the false-positive label may itself be configured (a pass/fail threshold and a critical region of its own): an estimate sitting on such a
+            # ground truth within the threshold is a matched FP, not a TN
+            targets = targets + ["false_positive"]
+            n = len(targets)
+            crit = {k: v + [v[0]] for k, v in crit.items()}
     return dict(est=est, gt=gt, ego=ego, targets=targets, crit=crit, task=task,
                 pass_thr=[rnd.choice([0.5, 2.0])] * n, policy=rnd.choice(["DEFAULT", "ALLOW_UNKNOWN", "ALLOW_ANY"]))
 
